@@ -171,7 +171,7 @@ class GenFile:
                 text = self.render().split('\n')
                 starts = [(i + 1, l.split()[1][:-1]) for i, l in enumerate(text) if l.startswith('def ')]
                 bad = set()
-                for m in re.finditer(r'%s\.lean:(\d+):\d+: error' % self.name, out):
+                for m in re.finditer(r'%s\.lean:(\d+):\d+' % self.name, out):
                     ln = int(m.group(1))
                     owner = None
                     for st, nm in starts:
